@@ -1,6 +1,8 @@
 import MLPE.Proofs.Safe
 import MLPE.Props.C04
 import MLPE.Proofs.PlainSol
+import MLPE.Proofs.Budget
+import MLPE.Proofs.PlainDemo
 
 /-!
 # C03 — a node starts only after its inputs are final and gets exactly their values
@@ -186,5 +188,34 @@ theorem C03_oneof_body_arguments (P : Program) (val : Node → Option Val) (hone
   have := a.preds
   rw [List.all_eq_true] at this
   exact this
+
+
+/-! ### The shape of the arguments, over a whole run (all programs, all schedules) — `Proofs/KwArgs.lean`, `Proofs/Budget.lean` -/
+
+/-- **C03, every program, every schedule: exactly one keyword argument per declared parameter.**  Every body call any
+execution ever makes of a node other than the input node — first attempt or retry, in any scope, after any restart — gets
+an entry for every parameter declared for the node (the `kwarg` names of its incoming edges), no other key except
+`additional_data`, no key twice, and never an exception object as the value of a declared parameter -/
+theorem C03_every_body_call_gets_the_declared_parameters (P : Program) (s : St) (log : List Obs) (h : Exec P s log)
+    (n : Node) (inv k : Nat) (kw : Kwargs) (hm : Obs.body n inv k kw ∈ log) (hn : (n == P.g.input) = false) :
+    KwOK P n kw :=
+  ((budget_exec h).2 _ hm).2.2 hn
+
+/-- **the input node receives exactly the caller's `input_kwargs`** — plus `additional_data` when it is the start node of a
+recurrent subgraph that has been restarted — in every body call of every execution -/
+theorem C03_input_node_gets_the_callers_kwargs (P : Program) (s : St) (log : List Obs) (h : Exec P s log)
+    (inv k : Nat) (kw : Kwargs) (hm : Obs.body P.g.input inv k kw ∈ log) :
+    kw = P.inputKw ∨ ∃ v, kw = insertKw P.inputKw "additional_data" v :=
+  ((budget_exec h).2 _ hm).2.1 (by simp)
+
+/-- `get_default` is called with arguments of the same shape (C12: with the arguments of the attempts) -/
+theorem C03_default_gets_the_declared_parameters (P : Program) (s : St) (log : List Obs) (h : Exec P s log)
+    (n : Node) (kw : Kwargs) (hm : Obs.dflt n kw ∈ log) (hn : (n == P.g.input) = false) : KwOK P n kw :=
+  ((budget_exec h).2 _ hm).2.2 hn
+
+/-- non-vacuity: in the demo run of the diamond node 1 (one declared parameter) is called with exactly that parameter -/
+example : (execLog demoDiamond init [] demoSchedule).map (fun r =>
+      r.2.filterMap (fun o => match o with | .body 1 _ _ kw => some (keysOf kw, declared demoDiamond 1) | _ => none)) =
+    some [(["a"], ["a"])] := by decide +kernel
 
 end MLPE.Eng
